@@ -266,4 +266,186 @@ theorem load_bytes_src_eq_model (O : DataOrderTy) (buf : List Nat) (i : Nat) (hw
         BigEndianLsb0_DataOrder_IS_ALTERNATE_ORDER, Order.alt, RawU32_new, hm, Nat.and_two_pow_sub_one_eq_mod,
         ↓reduceIte, Bool.false_eq_true, fromBe] <;> (unfold fromBe at *; omega)
 
+/-! ### `store` -/
+
+/-- sub-byte `store` (the three expansions of `impl_load_store_bits!`): the read-modify-write
+`(*byte & !(MASK << bit_index)) | (value << bit_index)` in `u8` arithmetic is the hand model's `storeByte`;
+`get_mut(..).ok_or(OutOfBoundsError)` its bounds check. Unconditional. -/
+theorem store_bits_src_eq_model (O : DataOrderTy) (v : Nat) (buf : List Nat) (i : Nat) :
+    RawU1_LoadStore_store O v buf i = storeBits 1 (ord O) v buf i ∧
+    RawU2_LoadStore_store O v buf i = storeBits 2 (ord O) v buf i ∧
+    RawU4_LoadStore_store O v buf i = storeBits 4 (ord O) v buf i := by
+  refine ⟨?_, ?_, ?_⟩
+  · have hp := bit_position_src_eq_model .RawU1 O i
+    simp only [bits, RawData_BITS_PER_PIXEL, RawU1_RawData_BITS_PER_PIXEL] at hp
+    have hm : RawU1_RawData_MASK = mask 1 := by decide
+    raw_simp [RawU1_LoadStore_store, storeBits, hp, RawU1_RawData_into_inner, storeByte, hm]
+    cases buf[(bitPosition 1 (ord O) i).1]? <;> rfl
+  · have hp := bit_position_src_eq_model .RawU2 O i
+    simp only [bits, RawData_BITS_PER_PIXEL, RawU2_RawData_BITS_PER_PIXEL] at hp
+    have hm : RawU2_RawData_MASK = mask 2 := by decide
+    raw_simp [RawU2_LoadStore_store, storeBits, hp, RawU2_RawData_into_inner, storeByte, hm]
+    cases buf[(bitPosition 2 (ord O) i).1]? <;> rfl
+  · have hp := bit_position_src_eq_model .RawU4 O i
+    simp only [bits, RawData_BITS_PER_PIXEL, RawU4_RawData_BITS_PER_PIXEL] at hp
+    have hm : RawU4_RawData_MASK = mask 4 := by decide
+    raw_simp [RawU4_LoadStore_store, storeBits, hp, RawU4_RawData_into_inner, storeByte, hm]
+    cases buf[(bitPosition 4 (ord O) i).1]? <;> rfl
+
+/-- `RawU8::store`. Unconditional. -/
+theorem store_u8_src_eq_model (O : DataOrderTy) (v : Nat) (buf : List Nat) (i : Nat) :
+    RawU8_LoadStore_store O v buf i = storeU8 v buf i := by
+  raw_simp [RawU8_LoadStore_store, storeU8]
+  cases buf[i]? <;> rfl
+
+/-- `to_le_bytes` / `to_be_bytes` of the multi-byte raw types are the hand model's digits (RawU24: three of the four
+bytes of the `u32`), and have the length `copy_from_slice` needs. -/
+theorem to_bytes_src_eq_model (v : Nat) :
+    RawU16_ToBytes_to_le_bytes v = toLe 2 v ∧ RawU16_ToBytes_to_be_bytes v = toBe 2 v ∧
+    RawU24_ToBytes_to_le_bytes v = toLe 3 v ∧ RawU24_ToBytes_to_be_bytes v = toBe 3 v ∧
+    RawU32_ToBytes_to_le_bytes v = toLe 4 v ∧ RawU32_ToBytes_to_be_bytes v = toBe 4 v := by
+  refine ⟨rfl, rfl, ?_, ?_, rfl, rfl⟩
+  · raw_simp [RawU24_ToBytes_to_le_bytes, toLe]
+    rfl
+  · raw_simp [RawU24_ToBytes_to_be_bytes, toBe, toLe]
+    rfl
+
+theorem to_bytes_length (v : Nat) :
+    (RawU16_ToBytes_to_le_bytes v).length = 2 ∧ (RawU16_ToBytes_to_be_bytes v).length = 2 ∧
+    (RawU24_ToBytes_to_le_bytes v).length = 3 ∧ (RawU24_ToBytes_to_be_bytes v).length = 3 ∧
+    (RawU32_ToBytes_to_le_bytes v).length = 4 ∧ (RawU32_ToBytes_to_be_bytes v).length = 4 := by
+  obtain ⟨a, b, c, d, e, f⟩ := to_bytes_src_eq_model v
+  rw [a, b, c, d, e, f]
+  exact ⟨toLe_length _ _, toBe_length _ _, toLe_length _ _, toBe_length _ _, toLe_length _ _, toBe_length _ _⟩
+
+/-- The write through `get_mut(start..)` / `get_mut(0..n)` / `copy_from_slice` is the hand model's `splice`. -/
+theorem store_chain_src_eq_model (buf : List Nat) (i n : Nat) (bytes : List Nat) (hb : bytes.length = n)
+    (hlen : FitsUsize buf) :
+    store_result (mutslice_root buf)
+      (result_map (option_ok_or (option_and_then (option_and_then (usize_checked_mul i n)
+        (fun start => mutslice_get_mut_from (mutslice_root buf) start))
+        (fun b => mutslice_get_mut_range b 0 n)) OutOfBoundsError)
+        (fun b => mutslice_copy_from_slice b bytes))
+    = match sliceFrom buf (i * n) with
+      | none => (false, buf)
+      | some tail =>
+        match slicePrefix tail n with
+        | none => (false, buf)
+        | some _ => (true, splice buf (i * n) bytes) := by
+  unfold FitsUsize at hlen
+  raw_simp [sliceFrom, slicePrefix, splice]
+  by_cases h1 : i * n ≤ buf.length
+  · have h0 : i * n ≤ usizeMax := by omega
+    simp only [h0, h1, ↓reduceIte, Nat.zero_le, true_and, List.drop_zero]
+    by_cases h2 : n ≤ (List.drop (i * n) buf).length
+    · simp only [h2, ↓reduceIte, List.take_zero, List.nil_append, List.drop_drop, hb, List.append_assoc]
+    · simp only [h2, ↓reduceIte]
+  · simp only [h1, ↓reduceIte]
+    by_cases h0 : i * n ≤ usizeMax <;> simp only [h0, h1, ↓reduceIte]
+
+/-- multi-byte `store` (RawU16, RawU24, RawU32). -/
+theorem store_bytes_src_eq_model (O : DataOrderTy) (v : Nat) (buf : List Nat) (i : Nat) (hlen : FitsUsize buf) :
+    RawU16_LoadStore_store O v buf i = storeBytes 2 (ord O) v buf i ∧
+    RawU24_LoadStore_store O v buf i = storeBytes 3 (ord O) v buf i ∧
+    RawU32_LoadStore_store O v buf i = storeBytes 4 (ord O) v buf i := by
+  obtain ⟨a, b, c, d, e, f⟩ := to_bytes_src_eq_model v
+  refine ⟨?_, ?_, ?_⟩
+  · unfold RawU16_LoadStore_store storeBytes
+    rw [a, b]
+    cases O
+    · exact store_chain_src_eq_model buf i 2 _ (toLe_length _ _) hlen
+    · exact store_chain_src_eq_model buf i 2 _ (toBe_length _ _) hlen
+  · unfold RawU24_LoadStore_store storeBytes
+    rw [c, d]
+    cases O
+    · exact store_chain_src_eq_model buf i 3 _ (toLe_length _ _) hlen
+    · exact store_chain_src_eq_model buf i 3 _ (toBe_length _ _) hlen
+  · unfold RawU32_LoadStore_store storeBytes
+    rw [e, f]
+    cases O
+    · exact store_chain_src_eq_model buf i 4 _ (toLe_length _ _) hlen
+    · exact store_chain_src_eq_model buf i 4 _ (toBe_length _ _) hlen
+
+/-! ### `RawData::load` / `RawData::store` (the trait functions every caller uses) -/
+
+/-- `R::load::<O>(buffer, index)` = the hand model's `load`, for every raw type, both data orders, all byte buffers
+whose length is a `usize`, and ALL indices. -/
+theorem load_src_eq_model (R : RawTy) (O : DataOrderTy) (buf : List Nat) (i : Nat) (hw : BytesOk buf)
+    (hlen : FitsUsize buf) :
+    RawData_load R O buf i = load (bits R) (ord O) buf i := by
+  obtain ⟨b1, b2, b4⟩ := load_bits_src_eq_model O buf i
+  obtain ⟨m2, m3, m4⟩ := load_bytes_src_eq_model O buf i hw hlen
+  cases R
+  · exact b1
+  · exact b2
+  · exact b4
+  · exact load_u8_src_eq_model O buf i hw
+  · exact m2
+  · exact m3
+  · exact m4
+
+/-- `value.store::<O>(buffer, index)` = the hand model's `store` (result AND buffer afterwards), for every raw type,
+both data orders, all buffers whose length is a `usize`, ALL indices and ALL values. -/
+theorem store_src_eq_model (R : RawTy) (O : DataOrderTy) (v : Nat) (buf : List Nat) (i : Nat)
+    (hlen : FitsUsize buf) :
+    RawData_store R O v buf i = store (bits R) (ord O) v buf i := by
+  obtain ⟨b1, b2, b4⟩ := store_bits_src_eq_model O v buf i
+  obtain ⟨m2, m3, m4⟩ := store_bytes_src_eq_model O v buf i hlen
+  cases R
+  · exact b1
+  · exact b2
+  · exact b4
+  · exact store_u8_src_eq_model O v buf i
+  · exact m2
+  · exact m3
+  · exact m4
+
+/-- Without `BytesOk` the two differ: the source masks a loaded `u8`, the hand model hands the list element on
+(the guard is the `u8` bound that `List Nat` lacks, not a restriction on the code). -/
+theorem load_differs_without_bytesok :
+    RawData_load .RawU8 .LittleEndianMsb0 [300] 0 ≠ load 8 .le [300] 0 := by decide
+
+/-! ### `RawDataIterator` -/
+
+/-- The hand model's iterator state of a generated one (`R`, `O` are type parameters in Rust). -/
+def toModel (R : RawTy) (O : DataOrderTy) (s : RawDataIterator) : Iter := ⟨bits R, ord O, s.data, s.index⟩
+
+/-- `RawDataIterator::new(data)` / `RawDataSlice::new(data).into_iter()` = `Iter.new`. -/
+theorem RawDataIterator_new_src_eq_model (R : RawTy) (O : DataOrderTy) (data : List Nat) :
+    toModel R O (RawDataIterator_new data) = Iter.new (bits R) (ord O) data ∧
+    toModel R O (RawDataSlice_IntoIterator_into_iter R O (RawDataSlice_new data)) = Iter.new (bits R) (ord O) data :=
+  ⟨rfl, rfl⟩
+
+/-- `Iterator::next`: the item AND the state afterwards. -/
+theorem Iterator_next_src_eq_model (R : RawTy) (O : DataOrderTy) (s : RawDataIterator) (hw : BytesOk s.data)
+    (hlen : FitsUsize s.data) :
+    (RawDataIterator_Iterator_next R O s).1 = (Iter.next (toModel R O s)).1 ∧
+    toModel R O (RawDataIterator_Iterator_next R O s).2 = (Iter.next (toModel R O s)).2 := by
+  unfold RawDataIterator_Iterator_next Iter.next toModel
+  rw [load_src_eq_model R O s.data s.index hw hlen]
+  dsimp only
+  cases load (bits R) (ord O) s.data s.index <;> exact ⟨rfl, rfl⟩
+
+/-- `Iterator::nth` (`saturating_add`, then `next`). -/
+theorem Iterator_nth_src_eq_model (R : RawTy) (O : DataOrderTy) (s : RawDataIterator) (n : Nat)
+    (hw : BytesOk s.data) (hlen : FitsUsize s.data) :
+    (RawDataIterator_Iterator_nth R O s n).1 = (Iter.nth (toModel R O s) n).1 ∧
+    toModel R O (RawDataIterator_Iterator_nth R O s n).2 = (Iter.nth (toModel R O s) n).2 := by
+  unfold RawDataIterator_Iterator_nth Iter.nth
+  exact Iterator_next_src_eq_model R O { s with index := usize_saturating_add s.index n } hw hlen
+
+/-- `Iterator::size_hint`. Unconditional. -/
+theorem Iterator_size_hint_src_eq_model (R : RawTy) (O : DataOrderTy) (s : RawDataIterator) :
+    RawDataIterator_Iterator_size_hint R O s = Iter.sizeHint (toModel R O s) := by
+  raw_simp [RawDataIterator_Iterator_size_hint, Iter.sizeHint, toModel, satMulUsize, decide_eq_true_eq]
+  rfl
+
+/-- What the translator left out is exactly this (an added override, e.g. of `Iterator::fold` / `count` for
+`RawDataIterator`, shows up here). `to_ne_bytes` is not used by the raw data layer. -/
+theorem untranslated_pinned :
+    untranslated =
+      [("impl ToBytes for RawU1", ["to_ne_bytes"]), ("impl ToBytes for RawU16", ["to_ne_bytes"]),
+       ("impl ToBytes for RawU2", ["to_ne_bytes"]), ("impl ToBytes for RawU32", ["to_ne_bytes"]),
+       ("impl ToBytes for RawU4", ["to_ne_bytes"]), ("impl ToBytes for RawU8", ["to_ne_bytes"])] := by decide
+
 end EG.C11.Generated
